@@ -379,7 +379,7 @@ def _prev_literal(f, call):
     `if`), skipping statements that print nothing and `if`s that only add literal text."""
     def lit_of(st):
         st = strip(st)
-        if st is not None and st["k"] == "CallExpr" and st.get("callee") in ("d_string_append", "d_string_append_c_array") and len(st["c"]) > 2:
+        if st is not None and st["k"] == "CallExpr" and st.get("callee") in ("d_string_append", "d_string_append_c_array", "d_string_append_printf") and len(st["c"]) > 2:
             a = strip(st["c"][2])
             if a is not None and a["k"] == "StringLiteral":
                 return a["s"]
@@ -533,3 +533,48 @@ def r_sink_provenance(P, chk):
                               "supposed to hold only generated / sanitised text" % (f.name, f.src(x["c"][1])[:50], l.get("rec"), l["n"]))
     chk.floor(rid, n, 4, "stores into sanitised record fields")
     chk.analysed[rid] = {"stores": n, "fields": sorted("%s.%s" % k for k in safe_fields)}
+
+
+# ---------------------------------------------------------------------------
+# R-ATTRBREAK (C08): a printer asked to turn hard line breaks into markup must not run inside an attribute value
+
+def r_attrbreak(P, chk):
+    rid = "R-ATTRBREAK"
+    chk.rule(rid, "a string printer called with line_breaks enabled (it emits a `<br/>` / `<text:line-break/>` element for a hard "
+                  "break) is never called while an attribute value is open (the literal printed just before has an unclosed quote)")
+    n = n_ctx = 0
+    for unit in ("html.c", "opendocument-content.c"):
+        u = P.units.get(unit)
+        if u is None:
+            raise AnalysisBroken("%s is gone" % unit)
+        printers = {}
+        for g in u.funcs.values():
+            for i, prm in enumerate(g.params):
+                if prm[0] == "line_breaks" and g.name.startswith("mmd_print_string"):
+                    printers[g.name] = i
+        if not printers:
+            raise AnalysisBroken("%s: no string printer with a line_breaks parameter" % unit)
+        for f in u.funcs.values():
+            if f.name in printers:
+                continue
+            for c in f.calls():
+                pi = printers.get(c.get("callee"))
+                if pi is None or 1 + pi >= len(c["c"]):
+                    continue
+                if const_value(c["c"][1 + pi]) == 0:
+                    continue
+                n += 1
+                lit = _prev_literal(f, c)
+                if lit is None:
+                    chk.obligation(rid, "%s %s: %s with line breaks, context not a literal" % (f.where(c), f.name, c["callee"]), True, nontrivial=False)
+                    continue
+                n_ctx += 1
+                tail = lit[lit.rfind("<"):] if "<" in lit else ""
+                in_attr = tail.count('"') % 2 == 1 and ">" not in tail[tail.rfind('"'):]
+                chk.obligation(rid, "%s %s: %s with line breaks after %r: element content" % (f.where(c), f.name, c["callee"], lit[-30:]), not in_attr)
+                if in_attr:
+                    chk.violation(rid, "attrbreak:%s:%s:%s" % (f.base, f.name, key(c["c"][2])[:40]), f.where(c),
+                                  "%s prints `%s` with line_breaks enabled right after %r, i.e. inside an attribute value: a hard line break "
+                                  "in the text puts a `<` into the attribute" % (f.name, f.src(c["c"][2])[:50], lit[-30:]))
+    chk.floor(rid, n, 10, "string-printer calls with line breaks enabled")
+    chk.floor(rid, n_ctx, 6, "of which with a literal context")
